@@ -1306,8 +1306,7 @@ class DiskRefsContainer(RefsContainer):
         self._check_refname(other)
         filename = self.refpath(name)
         # The directory may be gone: deleting the last ref in it removes it.
-        ensure_dir_exists(os.path.dirname(filename))
-        f = GitFile(filename, "wb")
+        f = _lock_loose_ref_file(filename)
         try:
             f.write(SYMREF + other + b"\n")
             try:
@@ -1367,7 +1366,7 @@ class DiskRefsContainer(RefsContainer):
         filename = self.refpath(realname)
         packed_refs = self.get_packed_refs()
         self._prepare_loose_ref_path(realname, filename)
-        with GitFile(filename, "wb") as f:
+        with _lock_loose_ref_file(filename) as f:
             if old_ref is not None:
                 try:
                     # read again while holding the lock to handle race conditions
@@ -1442,7 +1441,7 @@ class DiskRefsContainer(RefsContainer):
         self._check_refname(realname)
         filename = self.refpath(realname)
         self._prepare_loose_ref_path(realname, filename)
-        with GitFile(filename, "wb") as f:
+        with _lock_loose_ref_file(filename) as f:
             if os.path.exists(filename) or realname in self.get_packed_refs():
                 f.abort()
                 return False
@@ -1492,8 +1491,7 @@ class DiskRefsContainer(RefsContainer):
         with suppress(OSError):
             # an empty directory left behind at the path of the ref
             os.rmdir(filename)
-        ensure_dir_exists(os.path.dirname(filename))
-        f = GitFile(filename, "wb")
+        f = _lock_loose_ref_file(filename)
         try:
             if old_ref is not None:
                 orig_ref = self.read_loose_ref(name)
@@ -1947,6 +1945,23 @@ def _import_remote_refs(
     )
 
 
+def _lock_loose_ref_file(filename: bytes) -> "_GitFile":
+    """Take the lock of a loose ref file, creating its directory as needed.
+
+    Another process may remove the directory, which it found empty while
+    cleaning up after a deletion or after packing refs, between its creation
+    here and the creation of the lock file in it: try again in that case.
+    """
+    for _attempt in range(4):
+        ensure_dir_exists(os.path.dirname(filename))
+        try:
+            return GitFile(filename, "wb")
+        except FileNotFoundError:
+            continue
+    ensure_dir_exists(os.path.dirname(filename))
+    return GitFile(filename, "wb")
+
+
 class locked_ref:
     """Lock a ref while making modifications.
 
@@ -1984,8 +1999,7 @@ class locked_ref:
             self._realname = self._refname
 
         filename = self._refs_container.refpath(self._realname)
-        ensure_dir_exists(os.path.dirname(filename))
-        f = GitFile(filename, "wb")
+        f = _lock_loose_ref_file(filename)
         self._file = f
         return self
 
